@@ -28,7 +28,8 @@ VARIABLES l, cur, badl     \* badl: log line at which the latch of the current s
 Ev == Log[l]
 NoScn == [ep |-> "-", n |-> 0]
 ScnOf(e) == [n |-> e.n, ep |-> e.ep, segs |-> e.segs, lead |-> e.lead, trail |-> e.trail, unpack |-> e.unpack, strip |-> e.strip,
-             ents |-> e.ents, op |-> e.op, h |-> e.h, place |-> e.place, wm |-> e.wm, chk |-> e.chk]
+             ents |-> e.ents, op |-> e.op, h |-> e.h, place |-> e.place, wm |-> e.wm, chk |-> e.chk, opt |-> e.opt,
+             odir |-> e.odir, comp |-> e.comp, hdr |-> e.hdr, pos |-> e.pos]
 ToSet(s) == {s[i] : i \in 1..Len(s)}
 \* drift: the real run touched a path the design model does not predict (model vocabulary)
 Drift(e) == cur.ep \in {"art", "tar", "lnk"} /\ ~(ToSet(e.touched) \subseteq Touches(cur))
